@@ -44,6 +44,10 @@ type Conn struct {
 	in          chan *Line
 	out         chan string
 	connected   bool
+	// Guards reads of connected by Connected(). Close() holds mu while it
+	// waits for the event loop to finish, so handlers must be able to ask
+	// whether we are connected without needing mu.
+	cmu sync.RWMutex
 	// Incremented for every established connection, so that goroutines
 	// of a finished connection cannot close the one that follows it.
 	generation uint64
@@ -251,9 +255,16 @@ func Client(cfg *Config) *Conn {
 // an IRC server. It becomes true when the TCP connection is established,
 // and false again when the connection is closed.
 func (conn *Conn) Connected() bool {
-	conn.mu.RLock()
-	defer conn.mu.RUnlock()
+	conn.cmu.RLock()
+	defer conn.cmu.RUnlock()
 	return conn.connected
+}
+
+// setConnected changes the connected flag; conn.mu must be held.
+func (conn *Conn) setConnected(connected bool) {
+	conn.cmu.Lock()
+	conn.connected = connected
+	conn.cmu.Unlock()
 }
 
 // Config returns a pointer to the Config struct used by the client.
@@ -436,7 +447,7 @@ func (conn *Conn) internalConnect(ctx context.Context) error {
 
 	conn.generation++
 	conn.postConnect(ctx, true)
-	conn.connected = true
+	conn.setConnected(true)
 	return nil
 }
 
@@ -646,7 +657,7 @@ func (conn *Conn) close(gen uint64) error {
 		return nil
 	}
 	logging.Info("irc.Close(): Disconnected from server.")
-	conn.connected = false
+	conn.setConnected(false)
 	err := conn.sock.Close()
 	if conn.die != nil {
 		conn.die()
